@@ -7,27 +7,23 @@ import Nstd.Path.Lemmas
 namespace Nstd.Path
 
 /-- when a walk over `xs ++ ys` ends at a directory, the walk over `xs` alone (following a final link) does too -/
-theorem walk_prefix_dir (fs : Fs) : ∀ (fuel : Nat) (cur : CPath) (xs ys : List Name) (fo : Bool) (p : CPath),
+theorem walk_prefix_dir (fs : Fs) (fuel : Nat) : ∀ (cur : CPath) (xs ys : List Name) (fo : Bool) (p : CPath),
     walk fs fuel cur (xs ++ ys) fo = .found p .dir → ∃ q, walk fs fuel cur xs true = .found q .dir := by
-  intro fuel
-  induction fuel with
-  | zero =>
-    intro cur xs ys fo p h
-    cases xs with
-    | nil => exact ⟨cur, by simp [walk]⟩
-    | cons c rest => simp [walk] at h
-  | succ fuel ih =>
-    intro cur xs ys fo p h
-    cases xs with
-    | nil => exact ⟨cur, by simp [walk]⟩
-    | cons c rest =>
-      rw [List.cons_append, walk_cons] at h
-      rw [walk_cons]
+  apply walk_lift fs (fun k => ∀ (cur : CPath) (xs ys : List Name) (fo : Bool) (p : CPath),
+    k cur (xs ++ ys) fo = .found p .dir → ∃ q, k cur xs true = .found q .dir)
+  · intro _ _ _ _ _ h; simp at h
+  · intro k hk cur xs
+    induction xs generalizing cur with
+    | nil => intro ys fo p _; exact ⟨cur, by simp [walkAux]⟩
+    | cons c rest ih =>
+      intro ys fo p h
+      rw [List.cons_append, walkAux_cons] at h
+      rw [walkAux_cons]
       by_cases h1 : c = [46]
-      · rw [if_pos h1] at h ⊢; exact ih _ _ _ _ _ h
+      · rw [if_pos h1] at h ⊢; exact ih _ _ _ _ h
       · rw [if_neg h1] at h ⊢
         by_cases h2 : c = dotdot
-        · rw [if_pos h2] at h ⊢; exact ih _ _ _ _ _ h
+        · rw [if_pos h2] at h ⊢; exact ih _ _ _ _ h
         · rw [if_neg h2] at h ⊢
           cases hg : fs.get (cur ++ [c]) with
           | none =>
@@ -36,7 +32,7 @@ theorem walk_prefix_dir (fs : Fs) : ∀ (fuel : Nat) (cur : CPath) (xs ys : List
           | some e0 =>
             simp only [hg] at h
             cases e0 with
-            | dir => (try dsimp only at h); (try dsimp only); exact ih _ _ _ _ _ h
+            | dir => (try dsimp only at h); (try dsimp only); exact ih _ _ _ _ h
             | file d =>
               (try dsimp only at h)
               by_cases hr : rest ++ ys = [] <;> simp [hr] at h
@@ -48,7 +44,7 @@ theorem walk_prefix_dir (fs : Fs) : ∀ (fuel : Nat) (cur : CPath) (xs ys : List
                 have : ¬ (rest = [] ∧ true = false) := fun hh => by simp at hh
                 rw [if_neg this]
                 rw [← List.append_assoc] at h
-                exact ih _ _ _ _ _ h
+                exact hk _ _ _ _ _ h
 
 theorem startsWith47_append (d t : Bytes) (hd : d ≠ []) : startsWith47 (d ++ t) = startsWith47 d := by
   cases d with
